@@ -6,7 +6,7 @@ def quick_(tier):
 
 def build(tier):
     D = 2 if tier == "quick" else 4
-    obs = [decode.ob_decode('C05', 'C05.a'), e2obs.ob_validate(D, tier), e2obs.ob_munch("C05", D), e2obs.ob_parser("C05", D), e2obs.ob_module_anywhere("C05", D, "D11")]
+    obs = [decode.ob_decode('C05', 'C05.a'), e2obs.ob_validate(D, tier), e2obs.ob_munch("C05", D), e2obs.ob_parser("C05", D), e2obs.ob_module_anywhere("C05", D, "D11"), e2obs.ob_lone_cr("C05", D, "D19")]
     # C05.d the walk does not raise on valid programs: step shards incl. the symbolic command name and every by-name dispatch target
     procs, special = steps.special_names()
     obs += steps.step_obligations('C05.d', ['@other'] + [p for p in procs if p in ('generic_command',)], tier, 0, 0, symargs=False)
